@@ -21,12 +21,17 @@ R-C08.4  CFG construction, interpreted (c08_build.py): `visit_stmts` on all stat
          dead block keeps a live successor, no live block a dummy predecessor, both list pairs stay mirrored, other edges kept,
          "return expected" iff the fall-through end is live.  (Shape / text forms only as fallback.)
 R-C08.5  path-dependent types: check_rows_match raises iff some variable's type differs between the
-         two rows (all small row pairs, c08_rows.py below); check_cfg compares revisited blocks.
+         two rows (all small row pairs, c08_rows.py below); check_cfg compares revisited blocks; `check_cfg` interpreted on 4
+         model CFGs with statically dead blocks: every block reachable over real and dummy edges is checked once, with the
+         row of the edge it was reached by, every other edge is compared (c08_worklist.py).
 R-C08.6  per-block summaries: BB.compute_variable_stats with the whole VariableVisitor is interpreted on 18 small blocks
          (token trees of AST nodes; NodeVisitor protocol supplied by the interpreter): `used` = names read before the block
          assigns them, `assigned` = names it assigns -- for plain / augmented / annotated / attribute / subscript / tuple
          targets, comprehensions, nested functions, modifier blocks, comptime expressions, the branch predicate
          (c08_stats.py; the def-use shape rule of c08_blockuse.py only as fallback).
+R-C08.7  assignment expressions: `ExprBuilder` interpreted on `(x, (x := e))` -- a load that Python evaluates before the assignment
+         expression must not end up behind the `x = e` statement the builder emits (c08_walrus.py); the three assignment
+         visitors of CFGBuilder interpreted on `a[INDEX] = VALUE`: INDEX goes through the expression builder too (c08_targets.py).
 Not decided: that the CFG has exactly Python's paths.
 """
 
@@ -183,6 +188,13 @@ def run(ctx: Ctx) -> None:
         ctx.check("bb.successors" in it and "bb.dummy_successors" in it and not exits, "R-C08.3", f"{cb.qualname}#all-successor-edges", f"{cb.module.rel}:{edge_loop.lineno}",
                   {"iterates": it, "early_exits": len(exits)},
                   "a control-flow edge (e.g. into statically dead code) is not checked for undefined variables")
+
+    from . import c08_walrus
+    c08_walrus.run(ctx)  # R-C08.7
+    from . import c08_targets
+    c08_targets.run(ctx)  # R-C08.7 (targets)
+    from . import c08_worklist
+    c08_worklist.run(ctx)  # R-C08.5 (work list of check_cfg)
 
     # ------------------------------------------------------------ R-C08.4 CFG construction
     from . import c08_build
